@@ -49,14 +49,14 @@ WATCHDOG = {"quick": 600, "thorough": 3000}
 
 def plan(tier):
     if tier == "thorough":
-        return [{"variant": "plain", "workers": 16, "cases": 50000}]
+        return [{"variant": "plain", "workers": 16, "cases": 80000}]
     return [{"variant": "plain", "workers": 8, "cases": 1500}]
 
 
 # thresholds on the normalised residuals  r = ||R|| / (u * max(1,n) * scale),  u = 2^-53  (i.e. c(n) = THR * n).
-# Maxima observed on the unchanged tree over seeds 0,1,2,3,7,12345, both tiers (2.4 million cases):
-#   solve 7.4 (hesv)   factor 2.0   inverse 4.0 (potri)   equal 1.4 (hetrs vs hesv, scale includes cond(A))
-#   qr 4.5   orth 25 (heevr)   mult 2.2   ls 866 (gels normal equations)   eigval 20 (syevr)   eigvec 20 (syevr)
+# Maxima observed on the unchanged tree over seeds 0,1,2,3,7,12345, both tiers (4.9 million cases):
+#   solve 7.4 (hesv)   factor 2.0   inverse 4.0 (potri)   equal 1.7 (hetrs vs hesv, scale includes cond(A))
+#   qr 5.1   orth 29 (syevr)   mult 2.2   ls 866 (gels normal equations)   eigval 20 (syevr)   eigvec 20 (syevr)
 #   geig 4.2 (sygv)   svd 45 (gesvd)   schur 13 (gees)   aux 8 (larfg)
 # every threshold is >= 100 x the maximum; a wrong transpose / triangle / offset / factor 2 gives r >= 1e12.
 THR = {
